@@ -235,6 +235,14 @@ def signature_grid():
                           lambda fs: (x for x in sorted(fs)), lambda fs: iter(sorted(fs, reverse=True)), lambda fs: dict.fromkeys(sorted(fs)).keys()):
                 rows.append(("wishbone.Signature", {"addr_width": aw, "data_width": dw, "granularity": gran, "features": tuple(sorted(fs))},
                              lambda aw=aw, dw=dw, gran=gran, fs=fs, spell=spell: wishbone.Signature(addr_width=aw, data_width=dw, granularity=gran, features=spell(fs))))
+    # coincidences: parameter tuples that differ in TWO places while a derived quantity (address width in granules, total
+    # bits, the multiset of values) is the same — (aw=0, 32/8) vs (aw=2, 32/32), (aw=4, dw=8) vs (aw=8, dw=4), …
+    for aw, (dw, gran), fs in itertools.product([1, 2, 3, 7], [(16, 8), (16, 16), (32, 8), (32, 16), (32, 32), (64, 8), (64, 64)],
+                                                [frozenset(), frozenset({"err"}), frozenset(FEATS)]):
+        rows.append(("wishbone.Signature", {"addr_width": aw, "data_width": dw, "granularity": gran, "features": tuple(sorted(fs))},
+                     lambda aw=aw, dw=dw, gran=gran, fs=fs: wishbone.Signature(addr_width=aw, data_width=dw, granularity=gran, features=fs)))
+    for aw, dw in itertools.product([2, 8, 32], [2, 4, 16]):
+        rows.append(("csr.Signature", {"addr_width": aw, "data_width": dw}, lambda aw=aw, dw=dw: csr.Signature(addr_width=aw, data_width=dw)))
     for trg in ["level", "rise", "fall"]:
         rows.append(("event.Source.Signature", {"trigger": trg}, lambda trg=trg: event.Source.Signature(trigger=trg)))
     rows.append(("gpio.PinSignature", {}, lambda: gpio.PinSignature()))
